@@ -404,6 +404,10 @@ class TCPClient(_TCPPooling, interfaces.TokenInterface):
         self.credentials = None
 
     async def _spawn_protocol(self, message):
+        if self._tokenmanager is None:
+            # shut down already: there is no point in connecting anywhere
+            raise error.LibraryShutdown()
+
         if message.unresolved_remote is None:
             host = message.opt.uri_host
             port = message.opt.uri_port or self._default_port
